@@ -1,4 +1,5 @@
 import Ucfg.Model.Unpack
+import Ucfg.Lemmas.UnpackValid
 /-
   C04 — a successful Unpack returns only values that satisfy every declared validator.
 
@@ -8,8 +9,10 @@ import Ucfg.Model.Unpack
   the unpacker *produces or keeps* a value runs the validators declared for it — primitives,
   absent settings (defaults), whole lists and maps, inline fields — and a value that passed them
   where the code checks (on the pointee) also passes where the result is inspected (on the
-  pointer).  PARTIAL: the composition of these local facts into one statement about `unpack`
-  (a mutual induction over the ten functions of the model) is not mechanised; the
+  pointer).  These local facts are composed into one statement about `unpack` twice: `unpack_flat_valid` (structs of
+  primitive fields) and, by one induction over the fuel carrying a claim for each function of the model,
+  `unpack_plain_valid` / `unpack_plain_list_valid` (structs, pointers, slices and fixed-size arrays nested to any
+  depth).  PARTIAL: maps, interface{} and inline fields are outside the universe of the lifted theorem; for them the
   correspondence check applies `recValidate` to every successful result instead.
 -/
 namespace Ucfg.C04
@@ -318,5 +321,488 @@ example : FlatPrim [("A", "", "min=1", Ty.prim (.int 64)), ("B", "name", "", Ty.
   rcases hf with rfl | rfl
   · exact ⟨.int 64, rfl⟩
   · exact ⟨.string, rfl⟩
+
+end Ucfg.C04
+
+/-! ### the nested lift
+
+The same statement for target types nested to any depth: structs (without inline fields) of primitives, pointers, slices,
+fixed-size arrays and further structs.  One induction over the fuel carries six claims, one per function of the model
+(`mergeValue`, `reifyValue`, `reifyStructT`, `getField'`, `sliceMerge`, `doArray`); each step uses only the claims one
+level below.  The attempt to prove the claim for `reifyValue` at array types is what exposed defect D43 (a null setting
+creating a fixed-size array returned the zero array unvalidated); the model now follows the repaired code. -/
+namespace Ucfg.C04
+open Ucfg Outcome
+
+def _root_.Ucfg.Ty.isStrct : Ty → Bool
+  | .strct _ => true
+  | _ => false
+
+/-- what a step of the unpacker returns for a slot of type `ty` from setting `v`: valid recursively (under any options),
+and - unless the setting is null, which stands for "zero value" - passing the validators declared for the slot -/
+def Good (std : Stdlib) (fo : FOpts) (ty : Ty) (v : Val) (r : GoVal) : Prop :=
+  (∀ ov, recValidate std ov ty [] r = none) ∧
+  ((v.isNilPrim = false ∨ ty.isStrct = true) → runValidators std fo.validators r = none)
+
+structure Claims (std : Stdlib) (n : Nat) : Prop where
+  merge : ∀ (fo : FOpts) (ty : Ty) (old : GoVal) (v : Val) (r : GoVal), ty.plain = true → fits ty old = true →
+    mergeValue std n fo ty old v = .ok r → Good std fo ty v r
+  reify : ∀ (fo : FOpts) (ty : Ty) (v : Val) (r : GoVal), ty.plain = true →
+    reifyValue std n fo ty v = .ok r → Good std fo ty v r
+  strct : ∀ (o : Opts) (fs : List (String × String × String × Ty)) (xs : List GoVal) (cfg : Val) (xs' : List GoVal),
+    plainFields fs = true → fitsFields fs xs = true →
+    reifyStructT std n o fs xs cfg = .ok xs' → ∀ ov, recValidateFields std ov fs xs' = none
+  getf : ∀ (fo : FOpts) (t : Ty) (x : GoVal) (cfg : Val) (name : String) (r : GoVal), t.plain = true → fits t x = true →
+    getField' std n fo t x cfg name = .ok r → ∀ ov, recValidate std ov t fo.validators r = none
+  slice : ∀ (fo : FOpts) (t : Ty) (old : Option (List GoVal)) (v : Val) (r : GoVal), t.plain = true →
+    (∀ l, old = some l → fitsAll t l = true) → sliceMerge std n fo t old v = .ok r →
+    (∀ ov, recValidate std ov (.slice t) [] r = none) ∧ runValidators std fo.validators r = none
+  arr : ∀ (fo : FOpts) (t : Ty) (start : Nat) (xs : List GoVal) (vs : List Val) (xs' : List GoVal), t.plain = true →
+    fitsAll t xs = true → doArray std n fo t start xs vs = .ok xs' → ∀ ov, recValidateList std ov t xs' = none
+
+/-- a plain type is not interface{}: the "invalid reflect.Value" escape does not apply -/
+theorem keep_of_plain (t : Ty) (x nx : GoVal) : t.plain = true →
+    (match t, nx with
+     | .iface, .iface none => x
+     | _, nx => nx) = nx := by
+  intro ht
+  cases t <;> first | rfl | simp [Ty.plain] at ht
+
+theorem arr_step (std : Stdlib) (n : Nat) (IH : Claims std n) :
+    ∀ (fo : FOpts) (t : Ty) (start : Nat) (xs : List GoVal) (vs : List Val) (xs' : List GoVal), t.plain = true →
+    fitsAll t xs = true → doArray std (n+1) fo t start xs vs = .ok xs' → ∀ ov, recValidateList std ov t xs' = none := by
+  intro fo t start xs vs xs' ht hfit h ov
+  cases xs with
+  | nil =>
+    simp only [doArray] at h
+    cases h
+    exact recValidateList_nil std ov t
+  | cons x xr =>
+    simp only [fitsAll, Bool.and_eq_true] at hfit
+    cases start with
+    | succ st =>
+      simp only [doArray] at h
+      cases hc : recValidate std fo.opts t [] x with
+      | some e => rw [hc] at h; exact absurd h (raiseValidation_ne_ok e xs')
+      | none =>
+        rw [hc] at h
+        simp only at h
+        obtain ⟨rest, hrest, hr⟩ := bind_eq_ok h
+        simp only [Outcome.ok.injEq] at hr
+        subst hr
+        rw [recValidateList_cons]
+        exact ⟨by rw [recValidate_opts std ov fo.opts]; exact hc, IH.arr fo t st xr vs rest ht hfit.2 hrest ov⟩
+    | zero =>
+      cases vs with
+      | nil =>
+        simp only [doArray] at h
+        cases hc : recValidate std fo.opts t [] x with
+        | some e => rw [hc] at h; exact absurd h (raiseValidation_ne_ok e xs')
+        | none =>
+          rw [hc] at h
+          simp only at h
+          obtain ⟨rest, hrest, hr⟩ := bind_eq_ok h
+          simp only [Outcome.ok.injEq] at hr
+          subst hr
+          rw [recValidateList_cons]
+          exact ⟨by rw [recValidate_opts std ov fo.opts]; exact hc, IH.arr fo t 0 xr [] rest ht hfit.2 hrest ov⟩
+      | cons v vr =>
+        simp only [doArray] at h
+        obtain ⟨nx, hnx, h2⟩ := bind_eq_ok h
+        obtain ⟨rest, hrest, hr⟩ := bind_eq_ok h2
+        simp only [Outcome.ok.injEq] at hr
+        subst hr
+        rw [recValidateList_cons]
+        refine ⟨?_, IH.arr fo t 0 xr vr rest ht hfit.2 hrest ov⟩
+        have hg := (IH.merge fo t x v nx ht hfit.1 hnx).1 ov
+        split
+        · simp [Ty.plain] at ht
+        · exact hg
+
+theorem slice_step (std : Stdlib) (n : Nat) (IH : Claims std n) :
+    ∀ (fo : FOpts) (t : Ty) (old : Option (List GoVal)) (v : Val) (r : GoVal), t.plain = true →
+    (∀ l, old = some l → fitsAll t l = true) → sliceMerge std (n+1) fo t old v = .ok r →
+    (∀ ov, recValidate std ov (.slice t) [] r = none) ∧ runValidators std fo.validators r = none := by
+  intro fo t old v r ht hold h
+  have hz : fits t (zeroOf t) = true := fits_zeroOf t ht
+  -- both branches end in: doArray over a well-shaped list, then the validators of the whole list
+  have fin : ∀ (start : Nat) (tmp : List GoVal), fitsAll t tmp = true →
+      (do let xs ← doArray std n fo t start tmp (castArr v); finishArray std fo (.slice (some xs))) = .ok r →
+      (∀ ov, recValidate std ov (.slice t) [] r = none) ∧ runValidators std fo.validators r = none := by
+    intro start tmp htmp hh
+    obtain ⟨xs, hxs, hf⟩ := bind_eq_ok hh
+    obtain ⟨hr, hv⟩ := list_validated std fo _ r hf
+    subst hr
+    refine ⟨fun ov => ?_, hv⟩
+    rw [recValidate_slice]
+    exact IH.arr fo t start tmp (castArr v) xs ht htmp hxs ov
+  cases old with
+  | none =>
+    simp only [sliceMerge] at h
+    exact fin 0 _ (fitsAll_replicate t _ hz _) h
+  | some ol =>
+    have hol : fitsAll t ol = true := hold ol rfl
+    simp only [sliceMerge] at h
+    refine fin _ _ ?_ h
+    rw [fitsAll_all]
+    intro x hx
+    simp only [List.mem_append, List.mem_replicate] at hx
+    rcases hx with ⟨_, rfl⟩ | hx | ⟨_, rfl⟩
+    · exact hz
+    · exact (fitsAll_all t ol).mp hol x (List.mem_of_mem_take hx)
+    · exact hz
+
+theorem getf_step (std : Stdlib) (n : Nat) (IH : Claims std n) :
+    ∀ (fo : FOpts) (t : Ty) (x : GoVal) (cfg : Val) (name : String) (r : GoVal), t.plain = true → fits t x = true →
+    getField' std (n+1) fo t x cfg name = .ok r → ∀ ov, recValidate std ov t fo.validators r = none := by
+  intro fo t x cfg name r ht hfit h ov
+  -- everything after the lookup, for whatever the lookup produced
+  have core : ∀ vo : Option Val,
+      (if Val.isNilOpt vo = true then
+          (match t with
+           | .strct _ => mergeValue std n fo t x Val.nilV
+           | _ =>
+             (match recValidate std fo.opts t fo.validators x with
+              | some e => raiseValidation e
+              | none => (.ok x : Outcome GoVal)))
+        else
+          match vo with
+          | some v => (do
+              let nx ← mergeValue std n fo t x v
+              match t, nx with
+              | .iface, .iface none => .ok x
+              | _, nx => .ok nx)
+          | none => .ok x) = .ok r → recValidate std ov t fo.validators r = none := by
+    intro vo hcore
+    -- the branch that only validates what is there
+    have keep : (match recValidate std fo.opts t fo.validators x with
+              | some e => raiseValidation e
+              | none => (.ok x : Outcome GoVal)) = .ok r → recValidate std ov t fo.validators r = none := by
+      intro hk
+      cases hc : recValidate std fo.opts t fo.validators x with
+      | some e => rw [hc] at hk; exact absurd hk (raiseValidation_ne_ok e r)
+      | none =>
+        rw [hc] at hk
+        simp only [Outcome.ok.injEq] at hk
+        subst hk
+        rw [recValidate_opts std ov fo.opts]
+        exact hc
+    by_cases hnil : Val.isNilOpt vo = true
+    · simp only [hnil, if_true] at hcore
+      cases t with
+      | strct fs =>
+        simp only at hcore
+        have hg := IH.merge fo (.strct fs) x Val.nilV r ht hfit hcore
+        exact (recValidate_split std ov _ _ r).mpr ⟨hg.2 (Or.inr rfl), hg.1 ov⟩
+      | prim k => exact keep hcore
+      | ptr t' => exact keep hcore
+      | slice t' => exact keep hcore
+      | array k t' => exact keep hcore
+      | regexp => simp [Ty.plain] at ht
+      | iface => simp [Ty.plain] at ht
+      | map _ => simp [Ty.plain] at ht
+      | config => simp [Ty.plain] at ht
+      | unsupported => simp [Ty.plain] at ht
+      | badmap => simp [Ty.plain] at ht
+    · have hnil' : Val.isNilOpt vo = false := by simpa using hnil
+      simp only [hnil', Bool.false_eq_true, if_false] at hcore
+      cases vo with
+      | none => simp [Val.isNilOpt] at hnil'
+      | some v =>
+        have hv : v.isNilPrim = false := by simpa [Val.isNilOpt] using hnil'
+        simp only at hcore
+        obtain ⟨nx, hnx, h2⟩ := bind_eq_ok hcore
+        have hg := IH.merge fo t x v nx ht hfit hnx
+        have hr : r = nx := by
+          split at h2
+          · simp [Ty.plain] at ht
+          · simp only [Outcome.ok.injEq] at h2; exact h2.symm
+        subst hr
+        exact (recValidate_split std ov _ _ r).mpr ⟨hg.2 (Or.inl hv), hg.1 ov⟩
+  unfold getField' at h
+  simp only at h
+  cases hpg : pathGet tcPlain (parsePathOpts name fo.opts) cfg with
+  | ok vo => rw [hpg] at h; simp only at h; exact core vo h
+  | err e =>
+    rw [hpg] at h
+    simp only at h
+    by_cases hm : e.reason = Reason.missing
+    · simp only [hm, if_true] at h; exact core none h
+    · simp [hm] at h
+  | panic s => rw [hpg] at h; simp at h
+  | fuel => rw [hpg] at h; simp at h
+
+theorem accessField_tag (o : Opts) (g tag vtag : String) (fi : FieldInfo)
+    (h : accessField o g tag vtag = .ok (some fi)) : fi.tag = (parseTags tag).2 := by
+  unfold accessField at h
+  by_cases hx : exported g = true
+  · simp only [hx, Bool.not_true, Bool.false_eq_true, if_false] at h
+    by_cases hi : (parseTags tag).2.ignore = true
+    · simp [hi] at h
+    · simp only [hi, Bool.false_eq_true, if_false] at h
+      cases hp : parseValidatorTags vtag with
+      | none => rw [hp] at h; simp at h
+      | some vs =>
+        rw [hp] at h
+        simp only [Outcome.ok.injEq, Option.some.injEq] at h
+        subst h
+        rfl
+  · simp [hx] at h
+
+theorem strct_step (std : Stdlib) (n : Nat) (IH : Claims std n) :
+    ∀ (o : Opts) (fs : List (String × String × String × Ty)) (xs : List GoVal) (cfg : Val) (xs' : List GoVal),
+    plainFields fs = true → fitsFields fs xs = true →
+    reifyStructT std (n+1) o fs xs cfg = .ok xs' → ∀ ov, recValidateFields std ov fs xs' = none := by
+  intro o fs xs cfg xs' hpl hfit h ov
+  cases fs with
+  | nil =>
+    cases xs with
+    | nil =>
+      simp only [reifyStructT] at h
+      cases h
+      unfold recValidateFields; rfl
+    | cons x xr => simp [fitsFields] at hfit
+  | cons f fr =>
+    obtain ⟨g, tag, vtag, t⟩ := f
+    cases xs with
+    | nil => simp [fitsFields] at hfit
+    | cons x xr =>
+      simp only [plainFields, Bool.and_eq_true, Bool.not_eq_true'] at hpl
+      simp only [fitsFields, Bool.and_eq_true] at hfit
+      obtain ⟨⟨hsq, ht⟩, hplr⟩ := hpl
+      unfold reifyStructT at h
+      obtain ⟨fio, hacc, h2⟩ := bind_eq_ok h
+      have hother := accessField_other o ov g tag vtag
+      cases fio with
+      | none =>
+        simp only at h2
+        obtain ⟨rest, hrest, hr⟩ := bind_eq_ok h2
+        simp only [Outcome.ok.injEq] at hr
+        subst hr
+        unfold recValidateFields
+        rw [hother.1 hacc]
+        exact IH.strct o fr xr cfg rest hplr hfit.2 hrest ov
+      | some fi =>
+        simp only at h2
+        have htag := accessField_tag o g tag vtag fi hacc
+        have hsq' : fi.tag.squash = false := by rw [htag]; exact hsq
+        simp only [hsq', Bool.false_eq_true, if_false] at h2
+        obtain ⟨x', hx', h3⟩ := bind_eq_ok h2
+        obtain ⟨rest, hrest, hr⟩ := bind_eq_ok h3
+        simp only [Outcome.ok.injEq] at hr
+        subst hr
+        obtain ⟨fi', hfi', hv, _, _⟩ := hother.2.1 fi hacc
+        unfold recValidateFields
+        rw [hfi']
+        simp only
+        have hval := IH.getf _ t x cfg fi.name x' ht hfit.1 hx' ov
+        simp only at hval
+        rw [hv, hval]
+        exact IH.strct o fr xr cfg rest hplr hfit.2 hrest ov
+
+theorem good_prim (std : Stdlib) (fo : FOpts) (k : Kind) (v : Val) (r : GoVal)
+    (h : reifyPrimitiveT std fo (.prim k) v = .ok r) : Good std fo (.prim k) v r := by
+  refine ⟨fun ov => recValidate_prim' std ov k r, ?_⟩
+  intro hv
+  rcases hv with hv | hv
+  · exact reifyPrimitiveT_prim_validated std fo k v r hv h
+  · simp [Ty.isStrct] at hv
+
+theorem good_ptr (std : Stdlib) (fo : FOpts) (t : Ty) (v : Val) (x : GoVal) (hg : Good std fo t v x) :
+    Good std fo (.ptr t) v (.ptr (some x)) := by
+  refine ⟨fun ov => ?_, ?_⟩
+  · rw [recValidate_ptr_some]; exact hg.1 ov
+  · intro hv
+    rcases hv with hv | hv
+    · exact runValidators_ptr_some std _ x (hg.2 (Or.inl hv))
+    · simp [Ty.isStrct] at hv
+
+theorem reify_step (std : Stdlib) (n : Nat) (IH : Claims std n) :
+    ∀ (fo : FOpts) (ty : Ty) (v : Val) (r : GoVal), ty.plain = true →
+    reifyValue std (n+1) fo ty v = .ok r → Good std fo ty v r := by
+  intro fo ty v r ht h
+  cases ty with
+  | prim k =>
+    simp only [reifyValue] at h
+    exact good_prim std fo k v r h
+  | ptr t =>
+    simp only [Ty.plain] at ht
+    simp only [reifyValue] at h
+    obtain ⟨x, hx, hr⟩ := bind_eq_ok h
+    simp only [Outcome.ok.injEq] at hr
+    subst hr
+    exact good_ptr std fo t v x (IH.reify fo t v x ht hx)
+  | strct fs =>
+    simp only [Ty.plain] at ht
+    simp only [reifyValue] at h
+    cases hc : toCfg? v with
+    | none => rw [hc] at h; exact absurd h (raise_ne_ok _ r)
+    | some sub =>
+      rw [hc] at h
+      simp only at h
+      obtain ⟨xs, hxs, hr⟩ := bind_eq_ok h
+      simp only [Outcome.ok.injEq] at hr
+      subst hr
+      refine ⟨fun ov => ?_, fun _ => runValidators_strct std _ xs⟩
+      rw [recValidate_strct]
+      exact IH.strct fo.opts fs (zeroFields fs) sub xs ht (fitsFields_zero fs ht) hxs ov
+  | slice t =>
+    simp only [Ty.plain] at ht
+    simp only [reifyValue] at h
+    obtain ⟨h1, h2⟩ := IH.slice fo t none v r ht (by intro l hl; cases hl) h
+    exact ⟨h1, fun _ => h2⟩
+  | array k t =>
+    simp only [reifyValue] at h
+    unfold reifyPrimitiveT at h
+    by_cases hv : v.isNilPrim = true
+    · simp only [hv, if_true] at h
+      cases hc : recValidate std fo.opts (.array k t) [] (zeroOf (.array k t)) with
+      | some e => rw [hc] at h; exact absurd h (raiseValidation_ne_ok e r)
+      | none =>
+        rw [hc] at h
+        simp only [Outcome.ok.injEq] at h
+        subst h
+        refine ⟨fun ov => by rw [recValidate_opts std ov fo.opts]; exact hc, ?_⟩
+        intro hh
+        rcases hh with hh | hh
+        · rw [hv] at hh; cases hh
+        · simp [Ty.isStrct] at hh
+    · have hv' : v.isNilPrim = false := by simpa using hv
+      simp only [hv', Bool.false_eq_true, if_false] at h
+      exact absurd h (raise_ne_ok _ r)
+  | regexp => simp [Ty.plain] at ht
+  | iface => simp [Ty.plain] at ht
+  | map _ => simp [Ty.plain] at ht
+  | config => simp [Ty.plain] at ht
+  | unsupported => simp [Ty.plain] at ht
+  | badmap => simp [Ty.plain] at ht
+
+theorem merge_step (std : Stdlib) (n : Nat) (IH : Claims std n) :
+    ∀ (fo : FOpts) (ty : Ty) (old : GoVal) (v : Val) (r : GoVal), ty.plain = true → fits ty old = true →
+    mergeValue std (n+1) fo ty old v = .ok r → Good std fo ty v r := by
+  intro fo ty old v r ht hfit h
+  cases ty with
+  | prim k =>
+    rw [mergeValue_prim] at h
+    exact good_prim std fo k v r h
+  | ptr t =>
+    simp only [Ty.plain] at ht
+    cases old with
+    | ptr p =>
+      cases p with
+      | none =>
+        simp only [mergeValue] at h
+        exact IH.reify fo (.ptr t) v r (by simpa [Ty.plain] using ht) h
+      | some x =>
+        simp only [fits] at hfit
+        simp only [mergeValue] at h
+        obtain ⟨x', hx', hr⟩ := bind_eq_ok h
+        simp only [Outcome.ok.injEq] at hr
+        subst hr
+        exact good_ptr std fo t v x' (IH.merge fo t x v x' ht hfit hx')
+    | _ => simp [fits] at hfit
+  | strct fs =>
+    simp only [Ty.plain] at ht
+    cases old with
+    | strct xs =>
+      simp only [fits] at hfit
+      simp only [mergeValue] at h
+      cases hc : toCfg? v with
+      | none => rw [hc] at h; exact absurd h (raise_ne_ok _ r)
+      | some sub =>
+        rw [hc] at h
+        simp only at h
+        obtain ⟨xs', hxs, hr⟩ := bind_eq_ok h
+        simp only [Outcome.ok.injEq] at hr
+        subst hr
+        refine ⟨fun ov => ?_, fun _ => runValidators_strct std _ xs'⟩
+        rw [recValidate_strct]
+        exact IH.strct fo.opts fs xs sub xs' ht hfit hxs ov
+    | _ => simp [fits] at hfit
+  | slice t =>
+    simp only [Ty.plain] at ht
+    cases old with
+    | slice l =>
+      simp only [mergeValue] at h
+      have hold : ∀ l', l = some l' → fitsAll t l' = true := by
+        intro l' hl
+        subst hl
+        simpa [fits] using hfit
+      obtain ⟨h1, h2⟩ := IH.slice fo t l v r ht hold h
+      exact ⟨h1, fun _ => h2⟩
+    | _ => simp [fits] at hfit
+  | array sz t =>
+    simp only [Ty.plain] at ht
+    cases old with
+    | array xs =>
+      simp only [fits] at hfit
+      simp only [mergeValue] at h
+      by_cases hl : ((castArr v).length != sz) = true
+      · simp only [hl, if_true] at h
+        exact absurd h (raise_ne_ok _ r)
+      · simp only [hl, Bool.false_eq_true, if_false] at h
+        obtain ⟨xs', hxs, hf⟩ := bind_eq_ok h
+        obtain ⟨hr, hv⟩ := list_validated std fo _ r hf
+        subst hr
+        refine ⟨fun ov => ?_, fun _ => hv⟩
+        rw [recValidate_array]
+        exact IH.arr fo t 0 xs (castArr v) xs' ht hfit hxs ov
+    | _ => simp [fits] at hfit
+  | regexp => simp [Ty.plain] at ht
+  | iface => simp [Ty.plain] at ht
+  | map _ => simp [Ty.plain] at ht
+  | config => simp [Ty.plain] at ht
+  | unsupported => simp [Ty.plain] at ht
+  | badmap => simp [Ty.plain] at ht
+
+/-- the six claims hold at every fuel -/
+theorem claims (std : Stdlib) : ∀ n, Claims std n := by
+  intro n
+  induction n with
+  | zero =>
+    refine ⟨?_, ?_, ?_, ?_, ?_, ?_⟩
+    · intro fo ty old v r _ _ h; simp [mergeValue] at h
+    · intro fo ty v r _ h; simp [reifyValue] at h
+    · intro o fs xs cfg xs' _ _ h; simp [reifyStructT] at h
+    · intro fo t x cfg name r _ _ h; simp [getField'] at h
+    · intro fo t old v r _ _ h; simp [sliceMerge] at h
+    · intro fo t start xs vs xs' _ _ h; simp [doArray] at h
+  | succ k ih =>
+    exact ⟨merge_step std k ih, reify_step std k ih, strct_step std k ih, getf_step std k ih, slice_step std k ih,
+      arr_step std k ih⟩
+
+/-- **C04, nested.** For every struct type whose fields are primitives, pointers, slices, fixed-size arrays and further
+such structs, nested to any depth, with any tags (except `inline`), validators, pre-filled target and configuration:
+when `Unpack` returns without error, the recursive validation of the populated target reports nothing. -/
+theorem unpack_plain_valid (std : Stdlib) (o : Opts) (fs : List (String × String × String × Ty)) (xs : List GoVal)
+    (cfg : Val) (v : GoVal) (hpl : plainFields fs = true) (hfit : fitsFields fs xs = true)
+    (h : unpack std o (.strct fs) (.strct xs) cfg = .ok v) :
+    ∀ ov, recValidate std ov (.strct fs) [] v = none := by
+  intro ov
+  unfold unpack at h
+  simp only at h
+  obtain ⟨xs', hxs, hr⟩ := bind_eq_ok h
+  simp only [Outcome.ok.injEq] at hr
+  subst hr
+  rw [recValidate_strct]
+  exact (claims std unpackFuel).strct o fs xs cfg xs' hpl hfit hxs ov
+
+/-- ... and the same for a slice or fixed-size array as the target itself -/
+theorem unpack_plain_list_valid (std : Stdlib) (o : Opts) (ty : Ty) (old : GoVal) (cfg : Val) (v : GoVal)
+    (hty : (∃ t, ty = .slice t) ∨ (∃ k t, ty = .array k t)) (hpl : ty.plain = true) (hfit : fits ty old = true)
+    (h : unpack std o ty old cfg = .ok v) :
+    ∀ ov, recValidate std ov ty [] v = none := by
+  intro ov
+  have hm : mergeValue std unpackFuel { opts := o } ty old cfg = .ok v := by
+    rcases hty with ⟨t, rfl⟩ | ⟨k, t, rfl⟩ <;> (unfold unpack at h; exact h)
+  exact ((claims std unpackFuel).merge { opts := o } ty old cfg v hpl hfit hm).1 ov
+
+/-! non-vacuity: a struct nested through a pointer, a slice and an array, validators at two levels; it is in the universe,
+its zero value is well shaped, a valid configuration unpacks, and an invalid one is refused -/
+def exNested : List (String × String × String × Ty) :=
+  [("Hosts", "hosts", "required", .slice (.strct [("Name", "name", "required", .prim .string), ("Port", "port", "min=1", .prim (.int 64))])),
+   ("P", "p", "", .ptr (.array 1 (.strct [("N", "n", "nonzero", .prim (.int 64))])))]
+example : plainFields exNested = true := by decide
+example : fitsFields exNested (zeroFields exNested) = true := by decide
 
 end Ucfg.C04
